@@ -223,7 +223,8 @@ pub enum Case {
     WriterCall { matrix: String, padded: bool, call: usize },
     WriterBudget { matrix: String, padded: bool, budget: usize },
     Text { text: String, origin: String },
-    OwnText { matrix: String, padded: bool },
+    /// `ws` = 0: the plain text; otherwise a whitespace-equivalent rendering drawn from this seed
+    OwnText { matrix: String, padded: bool, ws: u64 },
 }
 
 impl Case {
@@ -233,7 +234,7 @@ impl Case {
             Case::WriterCall { matrix, padded, call } => json!({"kind": "writer-call", "matrix_alist": matrix, "padded": padded, "fail_at_call": call}),
             Case::WriterBudget { matrix, padded, budget } => json!({"kind": "writer-budget", "matrix_alist": matrix, "padded": padded, "byte_budget": budget}),
             Case::Text { text, origin } => json!({"kind": "text", "text": text, "origin": origin}),
-            Case::OwnText { matrix, padded } => json!({"kind": "own-text", "matrix_alist": matrix, "padded": padded}),
+            Case::OwnText { matrix, padded, ws } => json!({"kind": "own-text", "matrix_alist": matrix, "padded": padded, "ws": ws.to_string()}),
         }
     }
     pub fn from_json(v: &Value) -> Option<Case> {
@@ -244,7 +245,7 @@ impl Case {
             "writer-call" => Case::WriterCall { matrix: m()?, padded: p()?, call: v["fail_at_call"].as_u64()? as usize },
             "writer-budget" => Case::WriterBudget { matrix: m()?, padded: p()?, budget: v["byte_budget"].as_u64()? as usize },
             "text" => Case::Text { text: v["text"].as_str()?.to_string(), origin: v["origin"].as_str().unwrap_or("").to_string() },
-            "own-text" => Case::OwnText { matrix: m()?, padded: p()? },
+            "own-text" => Case::OwnText { matrix: m()?, padded: p()?, ws: v["ws"].as_str().and_then(|x| x.parse().ok()).unwrap_or(0) },
             _ => return None,
         })
     }
@@ -315,13 +316,22 @@ pub fn eval_case(case: &Case, stats: &mut Counters) -> Option<Violation> {
             stats.inc("roundtrip ok");
             None
         }
-        Case::OwnText { matrix, padded } => {
+        Case::OwnText { matrix, padded, ws } => {
             let m = matrix_from_own_alist(matrix)?;
-            let text = if *padded { m.to_alist() } else { own_unpadded(&m) };
+            let plain = if *padded { m.to_alist() } else { own_unpadded(&m) };
+            // the alist format separates numbers by blanks and lines by line ends; files written
+            // on other systems or by other tools come with CR LF, tabs, runs of blanks, blanks
+            // at the ends of lines (seeded change C08-r9-3 splits column lines at single spaces
+            // only and rejects them)
+            let (text, how) = if *ws == 0 { (plain, String::new()) } else { whitespace_rendering(&plain, *ws) };
+            if *ws != 0 {
+                stats.inc(&format!("faults_fired/whitespace-equivalent rendering:{}", how));
+            }
+            let padded = &format!("{}{}", if *padded { "padded" } else { "unpadded" }, how);
             match guarded_parse(&text) {
                 ParseOutcome::Ok(back) if BitMat::from_sparse(&back) == m => None,
-                ParseOutcome::Ok(_) => Some(Violation::new("accepts-forms", format!("a well-formed {} alist parses to a different matrix", if *padded { "padded" } else { "unpadded" }))),
-                ParseOutcome::Err => Some(Violation::new("accepts-forms", format!("a well-formed {} alist is rejected", if *padded { "padded" } else { "unpadded" }))),
+                ParseOutcome::Ok(_) => Some(Violation::new("accepts-forms", format!("a well-formed {} alist parses to a different matrix", padded))),
+                ParseOutcome::Err => Some(Violation::new("accepts-forms", format!("a well-formed {} alist is rejected", padded))),
                 ParseOutcome::Panic(p) => Some(Violation::new("parser-panic", format!("well-formed text: {}", p))),
                 ParseOutcome::Skipped => None,
             }
@@ -608,6 +618,43 @@ pub fn storage_faults(g: &mut Stream, text: &str, other: &str, stats: &mut Count
     out
 }
 
+/// The same numbers on the same lines, separated differently: CR LF line ends, tabs, runs of
+/// blanks, blanks at the ends (and, on column and row lines, at the beginning) of lines.
+fn whitespace_rendering(plain: &str, seed: u64) -> (String, String) {
+    let mut g = Stream::new(seed, "c08-ws");
+    let style = g.below(5);
+    let how = [" with CR LF line ends", " with tabs between the numbers", " with runs of blanks between the numbers", " with blanks at the ends of the lines", " with CR LF, tabs and blanks mixed"][style as usize];
+    let mut out = String::new();
+    for line in plain.split_inclusive('\n') {
+        let (body, nl) = match line.strip_suffix('\n') {
+            Some(b) => (b, true),
+            None => (line, false),
+        };
+        let toks: Vec<&str> = body.split(' ').filter(|t| !t.is_empty()).collect();
+        let sep = |g: &mut Stream| -> String {
+            match style {
+                1 => "\t".to_string(),
+                2 => " ".repeat(1 + g.below(4) as usize),
+                4 => (*g.pick(&[" ", "\t", "  ", " \t", "\t "])).to_string(),
+                _ => " ".to_string(),
+            }
+        };
+        for (i, t) in toks.iter().enumerate() {
+            if i > 0 {
+                out.push_str(&sep(&mut g));
+            }
+            out.push_str(t);
+        }
+        if (style == 3 || style == 4) && g.chance(1, 2) {
+            out.push_str(*g.pick(&[" ", "  ", "\t"]));
+        }
+        if nl {
+            out.push_str(if style == 0 || (style == 4 && g.chance(1, 2)) { "\r\n" } else { "\n" });
+        }
+    }
+    (out, how.to_string())
+}
+
 fn token_soup(g: &mut Stream) -> String {
     let n = g.below(40) as usize;
     let mut s = String::new();
@@ -715,7 +762,10 @@ pub fn main(opts: &Opts) -> ! {
             run(Case::RoundTrip { matrix: own.clone(), padded, shuffle: 0 }, &mut c, &mut fails);
             run(Case::RoundTrip { matrix: own.clone(), padded, shuffle: 1 + g.next() % 1_000_000 }, &mut c, &mut fails);
             run(Case::RoundTrip { matrix: own.clone(), padded, shuffle: (1 << 40) + g.next() % 1_000_000 }, &mut c, &mut fails);
-            run(Case::OwnText { matrix: own.clone(), padded }, &mut c, &mut fails);
+            run(Case::OwnText { matrix: own.clone(), padded, ws: 0 }, &mut c, &mut fails);
+            for _ in 0..3 {
+                run(Case::OwnText { matrix: own.clone(), padded, ws: 1 + g.next() % 1_000_000 }, &mut c, &mut fails);
+            }
             // writer faults: every write call, every byte budget
             let sm = m.to_sparse();
             let mut clean = FaultyWriter::new(None, None);
